@@ -10,7 +10,7 @@ import (
 func init() {
 	register(&propDef{
 		ID:          "C17",
-		Explanation: "Decides, for the language server's document copy (cmd/templ/lspcmd/proxy): R1 in DidChange the call that applies the content changes dominates parsing, generation, the source-map cache update and the forwarded DidChange, and the text parsed is the String() of the document that Apply returned; in DidOpen the document is stored before parsing; R2 in Document.Apply the range is normalised before any classification predicate or line index is evaluated; R3 the three edit predicates (insert / delete / overwrite), evaluated exhaustively over the truth assignments of their atoms {end line = start line, end column = start column, text empty}, are pairwise disjoint and cover every state except (empty range, empty text); R4 every satisfying assignment of the whole-document predicate constrains the end line AND the end column of the range (a range whose end line is unconstrained cannot be known to cover the document), besides requiring start 0:0; R5 the document store applies changes under its mutex. NOT decided: the splice arithmetic of Insert/Delete/Overwrite on concrete texts, UTF-16 column units.",
+		Explanation: "Decides, for the language server's document copy (cmd/templ/lspcmd/proxy): R1 in DidChange the call that applies the content changes dominates parsing, generation, the source-map cache update and the forwarded DidChange, and the text parsed is the String() of the document that Apply returned; in DidOpen the document is stored before parsing; R2 in Document.Apply the range is normalised before any classification predicate or line index is evaluated, and the normaliser clamps a position past the last line to the END of the last line (the branch that clamps a line coordinate also sets that position's character); R3 the three edit predicates (insert / delete / overwrite), evaluated exhaustively over the truth assignments of their atoms {end line = start line, end column = start column, text empty}, are pairwise disjoint and cover every state except (empty range, empty text); R4 every satisfying assignment of the whole-document predicate constrains the end line AND the end column of the range (a range whose end line is unconstrained cannot be known to cover the document), besides requiring start 0:0; R5 the document store applies changes under its mutex. NOT decided: the splice arithmetic of Insert/Delete/Overwrite on concrete texts, UTF-16 column units.",
 		Assumptions: []string{"atoms of the predicates are independent comparisons (truth table over uninterpreted atoms)"},
 		Trusted:     []string{"go/types", "x/tools go/packages, go/cfg"},
 		Run:         runC17,
@@ -170,6 +170,47 @@ func runC17(c *Ctx) {
 			}
 			c.check(okN, "C17.R2", key+"|normalise-before-classify", c.pos(norm.Pos()), fmt.Sprintf("normalisation dominates %d uses of the range", len(classifiers)),
 				"a classification predicate or edit primitive uses the range before it was normalised")
+		}
+	}
+
+	// R2b: a position beyond the last line is clamped to the END of the document: the branch that clamps a line
+	// coordinate also sets the character of that same position
+	for _, fd := range allFuncDecls(p) {
+		if fd.Recv == nil || recvTypeName(fd.Recv.List[0].Type) != "Document" || !isRangeMutator(c, p, info.Defs[fd.Name].(*types.Func)) {
+			continue
+		}
+		nclamp := 0
+		ast.Inspect(fd.Body, func(n ast.Node) bool {
+			is, ok := n.(*ast.IfStmt)
+			if !ok {
+				return true
+			}
+			be, ok := is.Cond.(*ast.BinaryExpr)
+			if !ok || !strings.HasSuffix(types.ExprString(be.X), ".Line") {
+				return true
+			}
+			pos := strings.TrimSuffix(types.ExprString(be.X), ".Line")
+			setsLine, setsChar := false, false
+			for _, st := range is.Body.List {
+				if as, ok := st.(*ast.AssignStmt); ok && len(as.Lhs) == 1 {
+					switch types.ExprString(as.Lhs[0]) {
+					case pos + ".Line":
+						setsLine = true
+					case pos + ".Character":
+						setsChar = true
+					}
+				}
+			}
+			if !setsLine {
+				return true
+			}
+			nclamp++
+			c.check(setsChar, "C17.R2", funcKey(p, fd)+"|line-clamp-sets-column:"+pos, c.pos(is.Pos()), "a position past the last line becomes the end of the last line",
+				fmt.Sprintf("%s clamps %s.Line to the last line but leaves %s.Character as sent: a position beyond the document end (e.g. line = lineCount, character 0) lands at the START of the last line instead of the end of the document", fd.Name.Name, pos, pos))
+			return true
+		})
+		if nclamp < 2 {
+			c.viol("C17.R2", funcKey(p, fd)+"|line-clamps", c.pos(fd.Pos()), fmt.Sprintf("expected the start and the end position to be clamped to the last line, found %d line clamps", nclamp))
 		}
 	}
 
@@ -368,7 +409,7 @@ func isRangeMutator(c *Ctx, p interface{}, fn *types.Func) bool {
 		ast.Inspect(fd.Body, func(n ast.Node) bool {
 			if as, ok := n.(*ast.AssignStmt); ok {
 				for _, l := range as.Lhs {
-					if strings.Contains(types.ExprString(l), ".Line") || strings.Contains(types.ExprString(l), ".Character") {
+					if se, ok := l.(*ast.SelectorExpr); ok && (se.Sel.Name == "Line" || se.Sel.Name == "Character") {
 						res = true
 					}
 				}
